@@ -238,7 +238,9 @@ def run(ctx):
         "connection close and the 5 s unsubscribe wait-gate are not scheduled",
         "MemoryBroker: one publication per channel in flight (pubLock)"]
     proofs_ok = ctx.lean_obligations()
+    ctx.log("lean obligations done")
     binary = ctx.go_test_binary(".", HARNESS)
+    ctx.log("harness built")
     if binary is None:
         ctx.violation("correspondence", "harness no longer builds against package centrifuge",
                       signature={"kind": "harness-build"}, replay={"log": getattr(ctx, "build_error", "")},
@@ -269,7 +271,9 @@ def run(ctx):
             cfg, _ = parse_run(g)
             run_ops.append(run_line(cfg, labels))
             expected.append(rest)
+    ctx.log(f"{len(run_ops)} schedules generated")
     impl = R.impl(run_ops)
+    ctx.log("implementation runs done")
     if ctx.last_go_crash:
         ctx.notes.append("harness process: " + str(ctx.last_go_crash)[-400:])
 
@@ -301,6 +305,7 @@ def run(ctx):
             if seen_classes[cls] > 1:
                 continue
             small = R.shrink(cfg, labels, (inv, kind))
+            ctx.log(f"shrunk {cls}: {len(labels)} -> {len(small)} labels")
             sop = run_line(cfg, small)
             sout = R.impl([sop])
             sp = parse_out(sout[0]) if sout else None
